@@ -18,6 +18,36 @@ IsPrefixOf(a, b) == Len(a) <= Len(b) /\ \A i \in 1..Len(a) : a[i] = b[i]
 
 UnfoldDepth == 5
 
+(***************************************************************************)
+(* The interactive prompt (src/bin/nederlang.rs), for records of session   *)
+(* lines that were also fed to the real executable: between reading a line *)
+(* and the next prompt it writes what the line printed, then the value of  *)
+(* the line followed by a line feed - nothing for null - or, for a failed  *)
+(* line, the error (its kind, then the message in parentheses).  `shown`   *)
+(* is that text as recorded from the executable's two output streams;      *)
+(* `shown_from` is how much of the program's output earlier lines wrote.   *)
+(***************************************************************************)
+ErrName(k) == CASE k = "Type" -> <<84, 121, 112, 101>>
+                [] k = "Syntax" -> <<83, 121, 110, 116, 97, 120>>
+                [] k = "Reference" -> <<82, 101, 102, 101, 114, 101, 110, 99, 101>>
+                [] k = "Index" -> <<73, 110, 100, 101, 120>>
+                [] k = "Argument" -> <<65, 114, 103, 117, 109, 101, 110, 116>>
+                [] OTHER -> <<63>>
+LineOut(o) == IF o.shown_from >= Len(m.out) THEN <<>> ELSE SubSeq(m.out, o.shown_from + 1, Len(m.out))
+PromptOK ==
+  LET o == Obs   r == m.res IN
+  IF "shown_missing" \in DOMAIN o THEN "prompt-died"
+  ELSE IF "shown" \notin DOMAIN o THEN "ok"
+  ELSE IF r.k = "V" THEN
+       IF ~m.vdef THEN "ok"
+       ELSE LET d == Display(r.v, m.heap, MaxDisplayDepth) IN
+            IF ~d.ok THEN "ok"
+            ELSE IF o.shown = LineOut(o) \o (IF r.v.t = "N" THEN <<>> ELSE d.s \o <<10>>) THEN "ok" ELSE "prompt"
+  ELSE IF r.k = "E" THEN
+       LET head == LineOut(o) \o ErrName(o.kind) \o <<69, 114, 114, 111, 114, 40>> IN      \* ...Error(
+       IF IsPrefixOf(head, o.shown) /\ o.shown[Len(o.shown)] = 10 THEN "ok" ELSE "prompt"
+  ELSE "ok"
+
 (* the verdict for the halted record: [class, rule] *)
 Verdict ==
   LET o == Obs   r == m.res IN
@@ -34,13 +64,14 @@ Verdict ==
        IF o.class # "Value" THEN [class |-> "mismatch", rule |-> "class"]
        ELSE IF m.out # o.out THEN [class |-> "mismatch", rule |-> "out"]
        ELSE IF ~m.vdef THEN [class |-> "agree", rule |-> "U1"]
-       ELSE IF UEq(Unfold(r.v, m.heap, UnfoldDepth), o.val)
-            THEN [class |-> "agree", rule |-> "value"]
-            ELSE [class |-> "mismatch", rule |-> "value"]
+       ELSE IF ~UEq(Unfold(r.v, m.heap, UnfoldDepth), o.val) THEN [class |-> "mismatch", rule |-> "value"]
+       ELSE IF PromptOK # "ok" THEN [class |-> "mismatch", rule |-> PromptOK]
+       ELSE [class |-> "agree", rule |-> "value"]
   ELSE \* r.k = "E"
        IF o.class # "Err" THEN [class |-> "mismatch", rule |-> "class"]
        ELSE IF o.kind \notin r.s THEN [class |-> "mismatch", rule |-> "errkind"]
        ELSE IF m.out # o.out THEN [class |-> "mismatch", rule |-> "out"]
+       ELSE IF PromptOK # "ok" THEN [class |-> "mismatch", rule |-> PromptOK]
        ELSE [class |-> "agree", rule |-> "error"]
 
 SpecSummary ==
